@@ -144,16 +144,63 @@ class TypeRender:
         return '#[educe(%s)] ' % ', '.join(metas)
 
     def extra_field_metas(self, v, i, f):
-        return []
+        metas = []
+        key = (self.idx, v, i)
+        var = self.cfg['variants'][v - 1]
+        if 'Debug' in self.traits:
+            ps = []
+            if f.get('dbg', 'own') == 'ignore':
+                ps.append(pick(['ignore', 'ignore = true', 'ignore(true)'], 'di', key))
+            elif f.get('dbg', 'own') == 'method':
+                ps.append(method_spelling('probes::m_fmt', key))
+            if f.get('key', ''):
+                k = 'k%d' % i
+                ps.append(pick(['name = %s', 'name = "%s"', 'name(%s)', 'rename = %s', 'rename("%s")'], 'dk', key) % k)
+            if ps:
+                if ps == ['ignore'] and pick([0, 1], 'dsh', key) == 0:
+                    metas.append('Debug = false')
+                elif len(ps) == 1 and f.get('key', '') and f.get('dbg', 'own') == 'own' and pick([0, 1, 2], 'dsh2', key) == 0:
+                    metas.append(pick(['Debug = k%d', 'Debug = "k%d"'], 'dsh3', key) % i)
+                else:
+                    if pick([0, 1], 'dord', key) == 0:
+                        ps.reverse()
+                    metas.append('Debug(%s)' % ', '.join(ps))
+        return metas
 
     def variant_attr(self, v, var):
-        return ''
+        metas = []
+        key = (self.idx, v)
+        if 'Debug' in self.traits:
+            ps = []
+            dn = var.get('dname', 'default')
+            if dn == 'off':
+                ps.append(pick(['name = false', 'name(false)', 'rename = false', 'name = ""'], 'vdn', key))
+            elif dn == 'custom':
+                n = 'RenamedV%d' % v
+                ps.append(pick(['name = %s', 'name = "%s"', 'name(%s)', 'rename = %s', 'name("%s")'], 'vdn', key) % n)
+            dnf = var.get('dnf', 'default')
+            if dnf in ('true', 'false'):
+                ps.append(pick(['named_field = %s' % dnf, 'named_field(%s)' % dnf], 'vdnf', key))
+            if ps:
+                if len(ps) == 1 and dn == 'custom' and pick([0, 1, 2], 'vsh', key) == 0:
+                    metas.append('Debug = RenamedV%d' % v)
+                else:
+                    if pick([0, 1], 'vord', key) == 0:
+                        ps.reverse()
+                    metas.append('Debug(%s)' % ', '.join(ps))
+        if var.get('dflt') and 'Default' in self.traits:
+            metas.append('Default')
+        if not metas:
+            return ''
+        return '#[educe(%s)] ' % ', '.join(metas)
 
     def extra_items(self):
         """items rendered after the type (on the same line), e.g. a hand-written PartialOrd when only Ord is educed"""
         if 'Ord' in self.traits and 'PartialOrd' not in self.traits:
             return ('impl ::core::cmp::PartialOrd for %s { fn partial_cmp(&self, o: &Self) -> Option<::core::cmp::Ordering> '
                     '{ Some(::core::cmp::Ord::cmp(self, o)) } }' % self.name)
+        if 'Copy' in self.traits:
+            return 'const _: fn() = || { fn is_copy<T: ::core::marker::Copy>() {} is_copy::<%s>(); };' % self.name
         return ''
 
     FIELD_TYPES = {'P': 'P', 'bool': 'bool', 'u64': 'u64', 'unit': '()', 'char': 'char', 'str': "&'static str",
